@@ -1,6 +1,8 @@
 package parser
 
 import (
+	"unicode/utf8"
+
 	"github.com/yuin/goldmark/ast"
 	"github.com/yuin/goldmark/text"
 	"github.com/yuin/goldmark/util"
@@ -82,6 +84,10 @@ func parseLinkReferenceDefinition(block text.Reader, pc Context) (int, int) {
 		}
 	}
 	if util.IsBlank(label) {
+		return -1, -1
+	}
+	// a link label can have at most 999 characters inside the square brackets
+	if utf8.RuneCount(label) > 999 {
 		return -1, -1
 	}
 	if block.Peek() != ':' {
